@@ -3,8 +3,39 @@ From Coq Require Import List NArith ZArith Bool.
 From PyD Require Import Base.Str Model.Hier Model.Mrs Model.Convert Proofs.ConvertP.
 Import ListNotations.
 
-(* one node per predication, in order, carrying its predicate and constant *)
+(* one node per predication, in order *)
 Theorem C04_nodes : forall m d, dmrs_from_mrs m = COk d ->
+  exists ids reps, ep_ids (m_rels m) = Some ids /\ representatives m = Some reps /\
+    d_nodes d = map (node_of m ids) (eps m ids) /\
+    map snd (eps m ids) = m_rels m /\
+    d_links d = flat_map fst (per_arg m ids reps) ++ mod_links ids reps.
+Proof. exact dmrs_nodes_spec. Qed.
+Print Assumptions C04_nodes.
+
+(* ... each carrying the predicate and constant of its predication and the type
+   and properties of its intrinsic variable *)
+Theorem C04_node_attributes : forall m ids i e,
+  let n := node_of m ids (i, e) in
+  dn_pred n = e_pred e /\ dn_carg n = e_carg e /\ dn_id n = nid_of ids i /\
+  (is_quant e = false -> forall v, e_iv e = Some v ->
+     dn_type n = var_type v /\
+     dn_props n = match dict_get v (m_vars m) with Some p => p | None => [] end) /\
+  (is_quant e = true -> dn_type n = None /\ dn_props n = []).
+Proof. exact node_of_spec. Qed.
+Print Assumptions C04_node_attributes.
+
+Theorem C04_nodes_in_order : forall m d, dmrs_from_mrs m = COk d ->
   map (fun n => (dn_pred n, dn_carg n)) (d_nodes d) = map (fun e => (e_pred e, e_carg e)) (m_rels m).
 Proof. exact dmrs_nodes_basic. Qed.
-Print Assumptions C04_nodes.
+Print Assumptions C04_nodes_in_order.
+
+(* every link the conversion produces is justified by the source: its start
+   predication has that role; the target is the predication the argument refers to
+   (EQ/NEQ by label identity), or the first representative of the scope a handle
+   constraint (H) or a direct label (HEQ) selects, or it is a MOD/EQ link from a
+   later to the first representative of one scope *)
+Theorem C04_links_justified : forall m d, dmrs_from_mrs m = COk d ->
+  exists ids reps, ep_ids (m_rels m) = Some ids /\ representatives m = Some reps /\
+    forall l, In l (d_links d) -> link_justified m ids reps l.
+Proof. exact dmrs_links_justified. Qed.
+Print Assumptions C04_links_justified.
